@@ -202,9 +202,11 @@ def unary_task(k, what, order_vars=None):
         NNroot = fold(NN, lambda o: o.attrs['root'])
         impl.append(same_obj(NNroot, F))              # double negation gives back the identical root
         wantspec.append(('true',))
-    elif what == 'restrict':
-        for v in order_vars + ['zz']:
-            for b in (False, True, 0, 1):
+    elif what.startswith('restrict'):
+        # 'restrict' = every variable (and a name outside the ordering) x (False, True, 0, 1); 'restrict:v' = variable v x (0, 1)
+        only = what.split(':')[1] if ':' in what else None
+        for v in ([only] if only else order_vars + ['zz']):
+            for b in ((0, 1) if only else (False, True, 0, 1)):
                 Rr = ctx.call(ctx.getattr1(OA, 'restrict'), [v, b], {})
                 Rroot = fold(Rr, lambda o: o.attrs['root'])
                 roots.append(Rroot)
